@@ -114,7 +114,8 @@ pub(crate) fn sanitize_namespace(key: &str) -> String {
         })
         .collect();
 
-    if sanitized.trim_matches('_').is_empty() {
+    // "." and ".." would resolve to the data dir itself / its parent when pushed onto a path.
+    if sanitized.trim_matches('_').is_empty() || sanitized == "." || sanitized == ".." {
         sanitized = format!("ns_{:x}", checksum64(key.as_bytes()));
     }
     sanitized
